@@ -335,7 +335,23 @@ def run(ctx):
                                     " and " + " ".join("U+%04X" % ord(c) for c in sorted(in_eq)) if in_eq else ""), common.fn_line(prog, k5))
                 else:
                     r5.ok("accepts:%s" % name5, "%s ⊆ characters the scan classifies" % name5)
-    r5.floor(2, "two classes used by the mobility test")
+            # conversely: "optionally followed by one vowel (sign)" — the classes the mobility test accepts must cover the consonants and
+            # every independent vowel and vowel sign (the minimum sets of the class rule R4)
+            acc5 = set()
+            for k5 in out_loop:
+                if by_key[k5][1] is not None:
+                    acc5 |= by_key[k5][1]
+            need5 = (classes.INDEP11 | classes.SIGNS10 | classes.CONSONANTS) - acc5
+            if need5:
+                r5.violation("covers", "the mobility test (%s) accepts none of %s: a text ending in a conjunct followed by one of them is declared immovable and the "
+                             "reph is appended at the end instead of being placed in front of the final conjunct"
+                             % (", ".join(sorted(by_key[k][0] for k in out_loop)), " ".join("U+%04X" % ord(c) for c in sorted(need5))), common.fn_line(prog, sorted(out_loop)[0]))
+            else:
+                r5.ok("covers", "the mobility test's classes cover every consonant, independent vowel and vowel sign")
+    r5.floor(3, "two classes used by the mobility test + coverage")
+    r6 = chk.rule("C13.R6", "the old-style reph option is a plain stored value", "with old-style reph on / off — 'the option' is the value the front end set")
+    common.plain_options(r6, prog, ["get_fixed_old_reph"])
+    r6.floor(1, "the option")
     r1.table("obligations", n_ob)
     r1.floor(6, "4 counter increments, len − step, suffix-bytes (sum, subtraction, truncate)")
 
